@@ -11,8 +11,13 @@ REPO = os.environ.get('VERIF_REPO', '/repo')
 
 
 class AnchorMissing(Exception):
-    """A construct a rule is anchored in no longer exists: the analysis is broken
-    (exit 2), never a silent pass."""
+    """A statement form a rule is anchored in was not recognised inside an existing function: that rule gives no verdict
+    (reported as undecided); the reference comparison still covers the function."""
+
+
+class ConstructMissing(AnchorMissing):
+    """A module, class or function a rule is anchored in no longer exists: the analysis is broken (exit 2), never a
+    silent pass."""
 
 
 class Unit:
@@ -206,13 +211,13 @@ class Program:
     def unit(self, modname):
         u = self.units.get(modname)
         if u is None:
-            raise AnchorMissing('module %s not found' % modname)
+            raise ConstructMissing('module %s not found' % modname)
         return u
 
     def func(self, qual):
         f = self.functions.get(qual)
         if f is None:
-            raise AnchorMissing('function %s not found' % qual)
+            raise ConstructMissing('function %s not found' % qual)
         return f
 
     def maybe_func(self, qual):
@@ -221,7 +226,7 @@ class Program:
     def cls(self, qual):
         c = self.classes.get(qual)
         if c is None:
-            raise AnchorMissing('class %s not found' % qual)
+            raise ConstructMissing('class %s not found' % qual)
         return c
 
     def funcs_in(self, modname, include_nested=False):
